@@ -1,3 +1,220 @@
-//! C13 (stub: no cases yet)
+//! C13 / C14 — Parser operation sequences: positions, errors, and agreement with the free
+//! string functions.
 use crate::common::*;
-pub fn run(_cfg: &Cfg, _out: &mut Out) {}
+use konst::parsing::{ParseDirection, ParseError, Parser};
+use konst::string as kstr;
+
+#[derive(Clone, Copy, Debug)]
+pub enum Op {
+    Skip(usize),
+    SkipBack(usize),
+    Trim,
+    TrimStart,
+    TrimEnd,
+    TrimMatches(&'static str),
+    TrimStartMatches(&'static str),
+    TrimEndMatches(&'static str),
+    StripPrefix(&'static str),
+    StripSuffix(&'static str),
+    FindSkip(&'static str),
+    RFindSkip(&'static str),
+    Split(&'static str),
+    RSplit(&'static str),
+    SplitTerminator(&'static str),
+    RSplitTerminator(&'static str),
+    SplitKeep(&'static str),
+}
+use Op::*;
+
+pub const OPS: [Op; 33] = [
+    Skip(1), Skip(2), SkipBack(1), SkipBack(2), Trim, TrimStart, TrimEnd,
+    TrimMatches("a"), TrimMatches("ab"), TrimMatches(""), TrimStartMatches("a"), TrimStartMatches("-"), TrimEndMatches("é"), TrimEndMatches("a"),
+    StripPrefix("a"), StripPrefix("é"), StripPrefix(""), StripSuffix("a"), StripSuffix("-"),
+    FindSkip("a"), FindSkip("-"), FindSkip("ab"), FindSkip(""), RFindSkip("a"), RFindSkip("é"),
+    Split("-"), Split("a"), RSplit("-"), RSplit("ab"), SplitTerminator("-"), RSplitTerminator("-"), SplitKeep("-"), SplitKeep("a"),
+];
+
+impl Op {
+    pub fn desc(&self) -> String {
+        match *self {
+            Skip(n) => format!("[skip,{}]", n),
+            SkipBack(n) => format!("[skip_back,{}]", n),
+            Trim => "[trim]".into(),
+            TrimStart => "[trim_start]".into(),
+            TrimEnd => "[trim_end]".into(),
+            TrimMatches(p) => format!("[trim_matches,{}]", hex(p.as_bytes())),
+            TrimStartMatches(p) => format!("[trim_start_matches,{}]", hex(p.as_bytes())),
+            TrimEndMatches(p) => format!("[trim_end_matches,{}]", hex(p.as_bytes())),
+            StripPrefix(p) => format!("[strip_prefix,{}]", hex(p.as_bytes())),
+            StripSuffix(p) => format!("[strip_suffix,{}]", hex(p.as_bytes())),
+            FindSkip(p) => format!("[find_skip,{}]", hex(p.as_bytes())),
+            RFindSkip(p) => format!("[rfind_skip,{}]", hex(p.as_bytes())),
+            Split(p) => format!("[split,{}]", hex(p.as_bytes())),
+            RSplit(p) => format!("[rsplit,{}]", hex(p.as_bytes())),
+            SplitTerminator(p) => format!("[split_terminator,{}]", hex(p.as_bytes())),
+            RSplitTerminator(p) => format!("[rsplit_terminator,{}]", hex(p.as_bytes())),
+            SplitKeep(p) => format!("[split_keep,{}]", hex(p.as_bytes())),
+        }
+    }
+}
+
+type R<'a> = Result<(Option<&'a str>, Parser<'a>), ParseError<'a>>;
+
+fn apply<'a>(p: Parser<'a>, op: Op) -> R<'a> {
+    Ok(match op {
+        Skip(n) => (None, p.skip(n)),
+        SkipBack(n) => (None, p.skip_back(n)),
+        Trim => (None, p.trim()),
+        TrimStart => (None, p.trim_start()),
+        TrimEnd => (None, p.trim_end()),
+        TrimMatches(x) => (None, p.trim_matches(x)),
+        TrimStartMatches(x) => (None, p.trim_start_matches(x)),
+        TrimEndMatches(x) => (None, p.trim_end_matches(x)),
+        StripPrefix(x) => (None, p.strip_prefix(x)?),
+        StripSuffix(x) => (None, p.strip_suffix(x)?),
+        FindSkip(x) => (None, p.find_skip(x)?),
+        RFindSkip(x) => (None, p.rfind_skip(x)?),
+        Split(x) => {
+            let (s, q) = p.split(x)?;
+            (Some(s), q)
+        }
+        RSplit(x) => {
+            let (s, q) = p.rsplit(x)?;
+            (Some(s), q)
+        }
+        SplitTerminator(x) => {
+            let (s, q) = p.split_terminator(x)?;
+            (Some(s), q)
+        }
+        RSplitTerminator(x) => {
+            let (s, q) = p.rsplit_terminator(x)?;
+            (Some(s), q)
+        }
+        SplitKeep(x) => {
+            let (s, q) = p.split_keep(x)?;
+            (Some(s), q)
+        }
+    })
+}
+
+fn dir(d: ParseDirection) -> &'static str {
+    match d {
+        ParseDirection::FromStart => "S",
+        ParseDirection::FromEnd => "E",
+        ParseDirection::FromBoth => "B",
+    }
+}
+
+/// runs the sequence; returns (rendered trace, tag)
+pub fn trace(orig: &str, base: usize, ops: &[Op]) -> (String, String) {
+    let mut p = if base == 0 { Parser::new(orig) } else { Parser::with_start_offset(orig, base) };
+    let mut out: Vec<String> = Vec::new();
+    let mut changed = 0;
+    let mut ended_err = false;
+    for &op in ops {
+        let before = p.remainder();
+        match std::panic::catch_unwind(move || apply(p, op)) {
+            Err(_) => {
+                out.push("PANIC".into());
+                break;
+            }
+            Ok(Ok((v, q))) => {
+                let s = q.start_offset();
+                let e = q.end_offset();
+                let rem = q.remainder();
+                let inv = s >= base && orig.as_bytes().get(s - base..e.wrapping_sub(base)).map_or(false, |x| x == rem.as_bytes());
+                out.push(format!(
+                    "ok({},{},{},{},{},{})",
+                    s, e, hex(rem.as_bytes()), dir(q.parse_direction()),
+                    v.map_or("-".to_string(), |x| hex(x.as_bytes())), show_bool(inv)
+                ));
+                if rem.len() != before.len() {
+                    changed += 1;
+                }
+                p = q;
+            }
+            Ok(Err(er)) => {
+                out.push(format!("err({},{},{:?})", er.offset(), dir(er.error_direction()), er.kind()));
+                ended_err = true;
+                break;
+            }
+        }
+    }
+    let tag = match (changed, ended_err) {
+        (0, false) => "-".to_string(),
+        (0, true) => "err".to_string(),
+        (1, false) => "one".to_string(),
+        (1, true) => "one+err".to_string(),
+        (_, false) => "multi".to_string(),
+        (_, true) => "multi+err".to_string(),
+    };
+    (format!("[{}]", out.join(",")), tag)
+}
+
+/// C14: the remainder each operation leaves = the free string function on the previous remainder
+pub fn free_fn<'a>(prev: &'a str, op: Op) -> Option<Option<&'a str>> {
+    Some(match op {
+        Skip(_) | SkipBack(_) => return None,
+        Trim => Some(kstr::trim(prev)),
+        TrimStart => Some(kstr::trim_start(prev)),
+        TrimEnd => Some(kstr::trim_end(prev)),
+        TrimMatches(x) => Some(kstr::trim_matches(prev, x)),
+        TrimStartMatches(x) => Some(kstr::trim_start_matches(prev, x)),
+        TrimEndMatches(x) => Some(kstr::trim_end_matches(prev, x)),
+        StripPrefix(x) => kstr::strip_prefix(prev, x),
+        StripSuffix(x) => kstr::strip_suffix(prev, x),
+        FindSkip(x) => kstr::find_skip(prev, x),
+        RFindSkip(x) => kstr::rfind_skip(prev, x),
+        Split(x) | SplitTerminator(x) => kstr::split_once(prev, x).map(|p| p.1),
+        RSplit(x) | RSplitTerminator(x) => kstr::rsplit_once(prev, x).map(|p| p.0),
+        SplitKeep(x) => kstr::find(prev, x).map(|i| &prev[i..]),
+    })
+}
+
+fn emit(out: &mut Out, orig: &str, base: usize, ops: &[Op]) {
+    let d: Vec<String> = ops.iter().map(|o| o.desc()).collect();
+    let args = format!("{} {} [{}]", hex(orig.as_bytes()), base, d.join(","));
+    let (tr, tag) = trace(orig, base, ops);
+    out.line("c13.ops", &args, &tr, "-", &tag);
+}
+
+pub fn run(cfg: &Cfg, out: &mut Out) {
+    // regression corpus: F3 (two-sided trims must not add the bytes trimmed at the end)
+    for (s, ops) in [
+        ("  a  ", vec![Trim]), ("  a  ", vec![Trim, Skip(1)]), ("aabaa", vec![TrimMatches("a"), FindSkip("b")]),
+        ("ababa", vec![TrimMatches("ab")]), ("é-é", vec![Skip(1), SkipBack(1)]), ("a-b-", vec![SplitTerminator("-"), SplitTerminator("-"), SplitTerminator("-")]),
+        ("-a-b", vec![RSplitTerminator("-"), RSplitTerminator("-"), RSplitTerminator("-")]), ("a-b", vec![Split("-"), Split("-"), Split("-")]),
+    ] {
+        emit(out, s, 0, &ops);
+        emit(out, s, 3, &ops);
+    }
+    let alpha = ['a', 'b', 'é', '-', ' '];
+    let strs = all_strings(&alpha, if cfg.thorough { 4 } else { 3 });
+    // depth 1 and 2, exhaustive
+    for s in &strs {
+        for base in [0usize, 7] {
+            for a in OPS {
+                emit(out, s, base, &[a]);
+                for b in OPS {
+                    emit(out, s, base, &[a, b]);
+                }
+            }
+        }
+    }
+    // depth 3 and long sequences, seeded random
+    let mut rng = Rng::new(cfg.seed ^ 0x13);
+    let n3 = if cfg.thorough { 400_000 } else { 40_000 };
+    for _ in 0..n3 {
+        let s = rng.pick(&strs).clone();
+        let ops = [*rng.pick(&OPS), *rng.pick(&OPS), *rng.pick(&OPS)];
+        emit(out, &s, *rng.pick(&[0usize, 7, 1000]), &ops);
+    }
+    let nl = if cfg.thorough { 20_000 } else { 3_000 };
+    for _ in 0..nl {
+        let len = rng.below(12) as usize;
+        let s: String = (0..len).map(|_| *rng.pick(&alpha)).collect();
+        let k = 1 + rng.below(12) as usize;
+        let ops: Vec<Op> = (0..k).map(|_| *rng.pick(&OPS)).collect();
+        emit(out, &s, *rng.pick(&[0usize, 7]), &ops);
+    }
+}
